@@ -318,6 +318,10 @@ class _ListDict_(object):
         if self.weighted:
             weight = self.weight.pop(choice)
             self._total_weight -= weight
+            if len(self.items) == 0:
+                #an empty collection has total weight exactly 0; without this a
+                #floating point residue keeps `total_weight()>0` true.
+                self._total_weight = 0
             if weight == self.max_weight:  
                 #if we find ourselves in this case often
                 #it may be better just to let max_weight be the
